@@ -7,7 +7,7 @@ import subprocess
 import vlib
 
 
-def run_shard(binary, mode, jobs_path, out_path, shard, nshards, extra=(), per_shard_timeout=3000):
+def run_shard(binary, mode, jobs_path, out_path, shard, nshards, extra=(), per_shard_timeout=21600):
     """Runs one shard; on a watchdog exit (75) or a crash resumes behind the offending run.
     Returns (#runs, list of notes)."""
     skip = 0
